@@ -123,6 +123,16 @@ impl<'a> PathArg for &'a PathBuf {
     fn as_ref(&self) -> (r: &PathBuf) { unimplemented!() }
 }
 
+impl<'a, 'b> PathArg for &'a &'b PathBuf {
+    open spec fn pc(&self) -> Comps { (***self).comps() }
+    open spec fn pv(&self) -> PathV { (***self)@ }
+    open spec fn pok(&self) -> bool { (***self).abs_clean() }
+    #[verifier::external_body]
+    fn into(self) -> (r: PathBuf) { unimplemented!() }
+    #[verifier::external_body]
+    fn as_ref(&self) -> (r: &PathBuf) { unimplemented!() }
+}
+
 // exec view of std::path::Component<'_> and the iteration / push operations used by Memfs::_mkdir_m
 #[verifier::external_body]
 pub struct Component { x: u8 }
